@@ -26,5 +26,4 @@ MCPoolSmall == << MCPool[1], MCPool[2], MCPool[3], MCPool[5], MCPool[6] >>
 \* species delimiters "+" and " + ";  reaction delimiters "=", "<=>", "=>", " = "
 MCSDelims == {<<43>>, <<32, 43, 32>>}
 MCRDelims == {<<61>>, <<60, 61, 62>>, <<61, 62>>, <<32, 61, 32>>}
-View == <<sel, rxset, written>>
 =============================================================================
